@@ -91,7 +91,9 @@ End Generic.
 (* THE CODE IN /repo.  The skeletons regenerated from websocket/conn.go satisfy the discipline, and
    the structural facts the model relies on hold (writeFatal keeps the first error, prepWrite
    returns the sticky error, flushFrame writes through Conn.write, there is no other transport
-   write site than Conn.write, Conn.WriteControl and the handshake) -- all by computation on the
+   write site than Conn.write, Conn.WriteControl and the handshake, the default ping/close handlers
+   and the reader's own replies -- which run on the reading goroutine -- use WriteControl and not the
+   single-writer message path) -- all by computation on the
    generated values; a source change that breaks one of them makes this theorem fail. *)
 Theorem c15_repo_discipline :
   ws_safeb write_skel = true /\ ws_safeb ctl_skel = true /\ repo_structure_ok = true.
